@@ -49,3 +49,20 @@ pub fn set_into_iter<K, S>(m: HashSet<K, S>) -> (r: std::collections::hash_set::
 pub fn map_into_iter<K, V, S>(m: HashMap<K, V, S>) -> (r: std::collections::hash_map::IntoIter<K, V, std::alloc::Global>)
     ensures map_entries_once(m@, r.remaining()), r.obeys_prophetic_iter_laws(), r.decrease() is Some
 { m.into_iter() }
+// VecDeque consumed by value (same rule E28): the elements front to back
+#[verifier::reject_recursive_types(A)]
+#[verifier::reject_recursive_types(T)]
+#[verifier::external_type_specification]
+#[verifier::external_body]
+pub struct ExVecDequeIntoIter<T, A>(std::collections::vec_deque::IntoIter<T, A>) where A: std::alloc::Allocator;
+pub mod trusted_byvalue_deque {
+    use vstd::prelude::*;
+    use vstd::std_specs::iter::IteratorSpec;
+    use std::alloc::Global;
+    #[verifier::external_body]
+    pub broadcast proof fn axiom_deque_into_iter_obeys<T>(it: std::collections::vec_deque::IntoIter<T, Global>) ensures #[trigger] it.obeys_prophetic_iter_laws() {}
+}
+#[verifier::external_body]
+pub fn deque_into_iter<T>(d: VecDeque<T>) -> (r: std::collections::vec_deque::IntoIter<T, std::alloc::Global>)
+    ensures r.remaining() == d@, r.obeys_prophetic_iter_laws(), r.decrease() is Some
+{ d.into_iter() }
